@@ -485,14 +485,14 @@ func Plan(prop, tier string, seed uint64) []RunConfig {
 			}
 			nrand := 4
 			if thorough {
-				nrand = 150
+				nrand = 400
 			}
 			for i := 0; i < nrand; i++ {
 				offs = append(offs, int64(r.Uint64()%uint64(R)))
 			}
 			reps := 1
 			if thorough {
-				reps = 12
+				reps = 24
 			}
 			for _, f := range offs {
 				for _, kind := range kinds {
@@ -625,7 +625,7 @@ func Plan(prop, tier string, seed uint64) []RunConfig {
 	case "C11":
 		reps := 1
 		if thorough {
-			reps = 80
+			reps = 300
 		}
 		for rep := 0; rep < reps; rep++ {
 			for nb := 0; nb <= 4096; nb++ {
